@@ -1331,15 +1331,21 @@ def host_rules(ctx, prefix):
         if ok:
             blk = host_if[0]["then"]
             # invalid combination: warning and no output
-            inv = [n for n in sir.walk(blk) if n.get("k") == "if" and n["cond"].get("k") == "let" and "invalid" in sir.expr_str(n["cond"]["e"])]
-            ok2 = False
-            if inv:
-                t = inv[0]["then"]
-                e = inv[0].get("else")
-                t_out = any(x.get("k") in ("mcall", "call") and (sir.call_name(x) or "").startswith(("append_", "write_in_low", "convert_")) for x in sir.walk(t))
-                t_warn = any(x.get("k") == "mcall" and x["m"] == "add_warning" and "HostSelectorCombination" in sir.expr_str(x) for x in sir.walk(t))
-                e_low = e is not None and any(x.get("k") == "mcall" and x["m"] == "write_in_low_priority" for x in sir.walk(e))
-                ok2 = (not t_out) and t_warn and e_low
+            # read through dominating conditions (if/else, early return, match are the same thing): the warning is raised where
+            # `invalid` is Some, the low-priority write happens where it is None, and nothing is written where it is Some
+            import guards as gdm2
+            GI = gdm2.guards_of(g.body)
+            inv_names = gdm2.derived_names(blk, "invalid") | {"invalid"}
+
+            def inv_state(n_):
+                return gdm2.option_state(GI.get(id(n_), []), lambda e_: any(x.get("k") == "path" and len(x["segs"]) == 1 and x["segs"][0] in ("invalid",) for x in sir.walk(e_)))
+            warns = [x for x in sir.walk(blk) if x.get("k") == "mcall" and x["m"] == "add_warning" and "HostSelectorCombination" in sir.expr_str(x)]
+            lows = [x for x in sir.walk(blk) if x.get("k") == "mcall" and x["m"] == "write_in_low_priority"]
+            outs_ = [x for x in sir.walk(blk, into_closures=False) if x.get("k") in ("mcall", "call") and (sir.call_name(x) or "").startswith(("append_", "convert_")) ]
+            t_warn = bool(warns) and all(inv_state(x) == "some" for x in warns)
+            e_low = bool(lows) and all(inv_state(x) == "none" for x in lows)
+            t_out = any(inv_state(x) == "some" for x in outs_)
+            ok2 = (not t_out) and t_warn and e_low
             obs.append(ob("%s.only/illegal-combination" % prefix, ok2, ctx.where(g), ":host combined with other selectors: warning, no output in either stream; plain :host: written through write_in_low_priority: %s" % ok2))
             # detection is exact: `:` followed by the identifier `host` (plain) or the function `host(` (illegal combination)
             det = None
